@@ -46,6 +46,11 @@ def safe(s):
 def build(quiet=True):
     """Build the release binary from /repo's current working tree and the shim. Raises HarnessError."""
     os.makedirs(BUILD_DIR, exist_ok=True)
+    if os.environ.get("BLSIM_SKIP_BUILD") and os.path.exists(BIN):
+        # reach measurement only (tools/coverage.sh): a separately built, coverage-instrumented binary is already in place
+        if not os.path.exists(SHIM):
+            subprocess.run(["gcc", "-O2", "-w", "-shared", "-fPIC", "-o", SHIM, SHIM_SRC, "-ldl", "-lpthread"], check=True)
+        return BIN
     env = dict(os.environ)
     env["CARGO_NET_OFFLINE"] = "true"
     env.pop("RUSTFLAGS", None)
@@ -486,6 +491,8 @@ def run_breadlog(root, check=False, plan=None, knobs=None, binary=None):
         "SIM_TRACE": trace_path,
         "ASYNC_STD_THREAD_COUNT": str(knobs.get("threads", 2)),
     }
+    if os.environ.get("BLSIM_PROFILE_DIR"):
+        env["LLVM_PROFILE_FILE"] = os.path.join(os.environ["BLSIM_PROFILE_DIR"], "bl-%p-%m.profraw")
     style = knobs.get("argv_style", "short")
     if style == "long":
         argv = [binary, "--config", cfg]
